@@ -1185,6 +1185,70 @@ theorem userCall2_bilinear_sound (a b c e : ℝ) {g1 g2 : ℝ → ℝ} {x v1 d1 
   simp
   ring
 
+/-- **the n-ary finite-difference rule, by induction over the argument list**: for a user function that is a separable quadratic in
+    any number of arguments (plus a constant), `Σ_k quotient_k · d_k` is exactly the gradient contracted with the inner derivatives,
+    for any non-zero steps -/
+theorem userCallN_sepQuad_exact (cs : List (ℝ × ℝ)) (c0 : ℝ) (args : List (ℝ × ℝ × ℝ)) (hlen : args.length = cs.length)
+    (heps : ∀ p ∈ args, p.2.2 ≠ 0) :
+    userCallNDiff (fun xs => c0 + sepQuad cs xs) args 0 = sepQuadDiff cs args := by
+  induction cs generalizing c0 args with
+  | nil =>
+    cases args with
+    | nil => simp [userCallNDiff, sepQuadDiff]
+    | cons p rest => simp at hlen
+  | cons ab cs ih =>
+    obtain ⟨a, b⟩ := ab
+    cases args with
+    | nil => simp at hlen
+    | cons p rest =>
+      obtain ⟨v, d, eps⟩ := p
+      have he : eps ≠ 0 := heps (v, d, eps) (by simp)
+      simp only [userCallNDiff, sepQuadDiff]
+      have e1 : (fun y => c0 + sepQuad ((a, b) :: cs) (y :: rest.map (·.1)))
+          = fun y => a * y ^ 2 + b * y + (c0 + sepQuad cs (rest.map (·.1))) := by
+        funext y; simp only [sepQuad]; ring
+      have e2 : (fun tail => c0 + sepQuad ((a, b) :: cs) (v :: tail))
+          = fun tail => (c0 + (a * v ^ 2 + b * v)) + sepQuad cs tail := by
+        funext tail; simp only [sepQuad]; ring
+      rw [e1, e2, centralDiff_exact_quadratic a b _ v eps he,
+        ih _ rest (by simpa using hlen) (fun p hp => heps p (List.mem_cons_of_mem _ hp))]
+
+/-- … and that contraction is the true derivative of the composed function (chain rule, by induction over the argument list):
+    so the walk is exact for `f(g_1(x), …, g_n(x))` with such an `f`, for every `n` -/
+theorem sepQuad_hasDerivAt (cs : List (ℝ × ℝ)) (gs : List (ℝ → ℝ)) (args : List (ℝ × ℝ × ℝ)) (x : ℝ)
+    (hlen : gs.length = args.length) (hlen' : args.length = cs.length)
+    (hrep : ∀ k (hk : k < gs.length), Rep (args[k]'(hlen ▸ hk)).1 (args[k]'(hlen ▸ hk)).2.1 gs[k] x) :
+    HasDerivAt (fun y => sepQuad cs (gs.map (fun g => g y))) (sepQuadDiff cs args) x := by
+  induction cs generalizing gs args with
+  | nil =>
+    have : (fun y => sepQuad [] (gs.map (fun g => g y))) = fun _ => (0 : ℝ) := by funext y; simp [sepQuad]
+    rw [this]
+    cases args <;> simpa [sepQuadDiff] using hasDerivAt_const x (0 : ℝ)
+  | cons ab cs ih =>
+    obtain ⟨a, b⟩ := ab
+    cases args with
+    | nil => simp at hlen'
+    | cons p rest =>
+      cases gs with
+      | nil => simp at hlen
+      | cons g gs =>
+        obtain ⟨v, d, eps⟩ := p
+        have h0 := hrep 0 (by simp)
+        simp only [List.getElem_cons_zero] at h0
+        have htail := ih gs rest (by simpa using hlen) (by simpa using hlen')
+          (fun k hk => by
+            have := hrep (k + 1) (by simpa using hk)
+            simpa using this)
+        have e : (fun y => sepQuad ((a, b) :: cs) ((g :: gs).map (fun g => g y)))
+            = fun y => a * (g y) ^ 2 + b * g y + sepQuad cs (gs.map (fun g => g y)) := by
+          funext y; simp [sepQuad]
+        rw [e]
+        have h1 := (((h0.der.pow 2).const_mul a).add (h0.der.const_mul b)).add htail
+        rw [h0.val] at h1
+        refine h1.congr_deriv ?_
+        simp [sepQuadDiff]
+        ring
+
 /-! ### non-vacuity: the hypotheses are met by concrete non-trivial values -/
 
 /-- `x * y + log x` at `x = 2` (a log-variable), `y = 3`, system seed in the direction of `x`:
@@ -1220,6 +1284,10 @@ example : systemizeVariants (fun p : Nat => p * p) [2, 3, 5] = [4, 9, 25] := by 
 
 example : evRun (fun p : Nat => p) (fun p : Nat => 10 * p) 0 [.evalJacob 1, .evalFunc 2, .evalJacob 2, .evalBoth 3]
     = [.jacob 10, .func 2, .jacob 20, .both 3 30] := by decide
+
+example : userCallNDiff (fun xs : List ℝ => 1 + sepQuad [(1, 0), (0, 2), (3, 1)] xs) [(1, 1, 1), (2, 1, 1), (0, 5, 1)] 0
+    = sepQuadDiff [(1, 0), (0, 2), (3, 1)] [(1, 1, 1), (2, 1, 1), (0, 5, 1)] :=
+  userCallN_sepQuad_exact _ _ _ rfl (by intro p hp; simp at hp; rcases hp with rfl | rfl | rfl <;> norm_num)
 
 example : MemoInv (⟨7, some 7⟩ : MemoState Nat) := by intro g h; simp at h; exact h
 
